@@ -254,7 +254,9 @@ func sameObs(a, b []lifeObs) bool {
 		return false
 	}
 	for i := range a {
-		if a[i].Class != b[i].Class || a[i].Started != b[i].Started || a[i].Closes != b[i].Closes || a[i].Waiting != b[i].Waiting || a[i].Running != b[i].Running {
+		// what the confirmation is about: which operations returned, which did not; counts may differ between two
+		// runs where the schedule matters (immediate restarts), the model's prediction set covers that
+		if a[i].Class != b[i].Class || a[i].Started != b[i].Started {
 			return false
 		}
 	}
